@@ -42,6 +42,10 @@ CFGS = {
     "lv08": [],                                                                 # default network model
 }
 BASE_ARGS = ["--log=root.thres:critical"]
+# violation classes that the oracle attributes to a cause visible in the scenario's own operations (no isolated re-run needed)
+CLASSIFIED = {"C13:livelock:repeated-veto:C",
+              "C13:never-starts:dependency-added-after-predecessor-finished", "C13:never-starts:last-dependency-removed-while-vetoed",
+              "C13:never-starts:zero-byte-comm-started-before-assignment"}
 
 # ---------------------------------------------------------------------------------------------------------------------------------
 # Directed scenarios (always run). Names starting with 'known-' are the minimal witnesses of the open known findings.
@@ -247,6 +251,35 @@ run 1.0
 undep a b
 E
 """,
+    "known-typed-wait-on-vetoed-comm": """S known-typed-wait-on-vetoed-comm Q
+new e1 E 2
+new c1 C 2
+dep e1 c1
+host e1 0
+src c1 0
+dst c1 1
+start e1
+E
+""",
+    "waiter-per-activity": """S waiter-per-activity P
+new e1 E 2
+new c1 C 2
+new i1 I 2048 w
+new e2 E 1
+waiters
+dep e1 c1
+dep c1 e2
+dep e1 i1
+dep i1 e2
+host e1 0
+src c1 0
+dst c1 1
+host e2 1
+start e1
+@1 run 1.0
+@1 disk i1 2
+E
+""",
     "known-zero-comm": """S known-zero-comm M
 new c C 0
 start c
@@ -301,7 +334,7 @@ def judge(ctx, sc, fl, cfg, lines, complete, res_proc, confirm):
     """Check one scenario's records. confirm(sc) -> Result of an isolated re-run (or None) is used before reporting a violation that
     was seen in a batch."""
     r = O.check(lines, expected_edges=[tuple(e) for e in sc["expected_edges"]] if "expected_edges" in sc else None)
-    if r.violations and confirm is not None:
+    if confirm is not None and any(k not in CLASSIFIED for k, _ in r.violations):
         r2 = confirm(sc)
         if r2 is None:
             ctx.inconclusive("could not re-run a scenario in isolation")
@@ -323,8 +356,9 @@ def judge(ctx, sc, fl, cfg, lines, complete, res_proc, confirm):
     return r
 
 
-def run_group(ctx, tmp, fl, cfg, scs, timeout=300):
-    """Run a batch of scenarios in one process and judge each of them."""
+def run_group(ctx, tmp, fl, cfg, scs, timeout=300, clean=None):
+    """Run a batch of scenarios in one process and judge each of them. clean (a set) receives the names of the scenarios in which
+    every activity finished."""
     by_name = {sc["name"]: sc for sc in scs}
     text = "".join(materialize(sc, tmp) for sc in scs)
     res = run_batch(fl, cfg, text, timeout)
@@ -348,12 +382,19 @@ def run_group(ctx, tmp, fl, cfg, scs, timeout=300):
         if sc is None:
             continue
         seen.add(name)
-        if not complete:
+        if not complete and not any(l.startswith("L ") for l in lines):
             crashed = sc
             continue
-        judge(ctx, sc, fl, cfg, lines, complete, res, confirm if len(scs) > 1 else None)
+        r = judge(ctx, sc, fl, cfg, lines, complete, res, confirm if len(scs) > 1 else None)
+        if clean is not None and r is not None and r.all_finished:
+            clean.add(name)
     ok_end = res.rc == 0 and res.out.rstrip().endswith("END")
-    if not ok_end:
+    if not ok_end and res.rc == 0 and crashed is None and res.out.rstrip().splitlines()[-1:][0:1] and res.out.rstrip().splitlines()[-1].startswith("L "):
+        # the harness stopped on a livelock (reported by the oracle): run what was behind it
+        rest = [sc for sc in scs if sc["name"] not in seen]
+        if rest:
+            run_group(ctx, tmp, fl, cfg, rest, timeout, clean)
+    elif not ok_end:
         # the process died: blame the scenario that was running, after confirming alone
         culprit = crashed
         if culprit is None:
@@ -362,6 +403,10 @@ def run_group(ctx, tmp, fl, cfg, scs, timeout=300):
         r1 = run_batch(fl, cfg, materialize(culprit, tmp), 120)
         if r1.timed_out:
             ctx.inconclusive("dag harness watchdog (isolated re-run)")
+        elif "__interceptor_sigaltstack" in r1.err:
+            # ASan's own sigaltstack interceptor reports when an exception unwinds the stack of an actor killed by the engine
+            # (not a SimGrid defect, see FRAMEWORK.md): scenarios that end in a deadlock are not run under ASan, this is a safety net
+            ctx.inconclusive("ASan false positive in its sigaltstack interceptor (actor killed by the engine)")
         elif r1.rc != 0 or not r1.out.rstrip().endswith("END"):
             reps = proc.sanitizer_reports(r1.err)
             kind = reps[0][0] if reps else ("rc%s" % r1.rc)
@@ -375,7 +420,7 @@ def run_group(ctx, tmp, fl, cfg, scs, timeout=300):
         # the scenarios after the crash were not run: run them again without the culprit
         rest = [sc for sc in scs if sc["name"] not in seen and sc is not culprit]
         if rest:
-            run_group(ctx, tmp, fl, cfg, rest, timeout)
+            run_group(ctx, tmp, fl, cfg, rest, timeout, clean)
 
 
 def directed_cases():
@@ -412,8 +457,7 @@ def run(ctx):
         jobs = []     # (flavour, cfg, [scenarios])
         directed = directed_cases()
         for sc in directed:
-            for fl in ("hooks", "asan"):
-                jobs.append((fl, "cm02", [sc]))
+            jobs.append(("hooks", "cm02", [sc]))
         ctx.sample({"directed": "diamond-tie", "text": DIRECTED["diamond-tie"]})
         api = []
         for i in range(n_api):
@@ -425,25 +469,34 @@ def run(ctx):
         for sc in api:
             for t in sc["tags"]:
                 ctx.count("generated.tag." + t)
-        # hooks flavour: 12 scenarios per process, alternating network models; asan: ~15 % of them, 40 per process
-        B = 12
+        # hooks flavour: 30 scenarios per process, alternating network models
+        B = 30
         for b in range(0, len(api), B):
             jobs.append(("hooks", "cm02" if (b // B) % 3 else "lv08", api[b:b + B]))
-        asan_part = api[:: 7]
-        for b in range(0, len(asan_part), 40):
-            jobs.append(("asan", "cm02", asan_part[b:b + 40]))
         js = [loader_case(ctx.sub_rng("json", i), "j%d" % i, "json", tmp) for i in range(n_json)]
         for b in range(0, len(js), B):
             jobs.append(("hooks", "cm02" if (b // B) % 2 else "lv08", js[b:b + B]))
-        for b in range(0, len(js[::5]), 40):
-            jobs.append(("asan", "cm02", js[::5][b:b + 40]))
         dx = [loader_case(ctx.sub_rng("dax", i), "x%d" % i, "dax", tmp) for i in range(n_dax)]
         for i, sc in enumerate(dx):
             jobs.append(("hooks", "cm02" if i % 2 else "lv08", [sc]))      # one DAX per process
-        for sc in dx[::6]:
-            jobs.append(("asan", "cm02", [sc]))
         if js:
             ctx.sample({"scenario": js[0]["name"], "text": js[0]["text"], "json": js[0]["file_content"]})
+        clean = set()
+        ctx.pmap(lambda j: run_group(ctx, tmp, j[0], j[1], j[2], clean=clean), jobs)
+        # ASan+UBSan flavour: a process costs seconds to start, so everything is batched (60 per process); a scenario that ends
+        # with actors killed by the engine (deadlock report) is not run there (ASan false positive while the actor's stack unwinds),
+        # which is known from the plain run since the simulation is deterministic
+        def ok_for_asan(sc):
+            return sc["mode"] == "M" or sc["name"] in clean
+        jobs = [("asan", "cm02", [sc for sc in directed if not sc["name"].startswith("known-") and ok_for_asan(sc)])]
+        asan_part = [sc for sc in api[:: 7] if ok_for_asan(sc)]
+        ctx.count("asan.skipped_deadlock_ending", len(api[:: 7]) - len(asan_part))
+        for b in range(0, len(asan_part), 60):
+            jobs.append(("asan", "cm02", asan_part[b:b + 60]))
+        for b in range(0, len(js[::4]), 60):
+            jobs.append(("asan", "cm02", js[::4][b:b + 60]))
+        for sc in dx[::30]:
+            jobs.append(("asan", "cm02", [sc]))
         ctx.pmap(lambda j: run_group(ctx, tmp, j[0], j[1], j[2]), jobs)
     finally:
         shutil.rmtree(tmp, ignore_errors=True)
